@@ -141,6 +141,8 @@ def main():
     # ---- pyramids
     cases = pyrgen.cases(rng, 700 if h.deep else 150, 5 if h.deep else 4)
     nontrivial = 0
+    par_budget = [120 if h.deep else 40]
+    gap_budget = [60 if h.deep else 20]
     for c in cases:
         if c.apex is not None and c.apex[0] > c.depth:
             continue
@@ -183,6 +185,35 @@ def main():
             bad = f"visit_leaves visited {len(vis_leaves)} tiles, the leaf set has {len(leaves)}: e.g. {sorted(set(vis_leaves) ^ set(leaves))[:3]}"
         elif sorted(vis_ops) != sorted(ops):
             bad = f"walk visited {len(vis_ops)} tiles, the operation set has {len(ops)}: e.g. {sorted(set(vis_ops) ^ ops)[:3]}"
+        # the same numbers for walks and leaf visits run by worker processes (simulated multiprocessing, random schedule)
+        # (cases with an accepted tile just above the leaves that has no accepted child come first: they have their own budget)
+        ap_ = c.apex or (0, 0, 0)
+        gap1 = c.acc is not None and c.depth >= 2 and any(p[0] == c.depth - 1 and p not in live and c.reachable(p) and pyrgen.is_desc(p, ap_) for p in c.acc)
+        if not bad and c.depth >= 2 and leaves and ((gap1 and gap_budget[0] > 0) or (par_budget[0] > 0 and (c.acc is not None or c.apex is not None or par_budget[0] % 5 == 0))):
+            if gap1 and gap_budget[0] > 0:
+                gap_budget[0] -= 1
+                h.count("parallel-visits", "gap above the leaves")
+            else:
+                par_budget[0] -= 1
+            from .. import simmp
+            npar = rng.choice([2, 3])
+            pv_ops, pv_leaves = [], []
+            try:
+                sim1 = simmp.simulate(lambda: c.build().walk(lambda pos: pv_ops.append((pos.n, pos.x, pos.y)), parallel=npar),
+                                      simmp.RandomChooser(rng.randrange(2 ** 31), timeout_weight=0.05), max_steps=20000, hang_window=300)
+                sim2 = simmp.simulate(lambda: c.build().visit_leaves(lambda pos, tile: pv_leaves.append((pos.n, pos.x, pos.y)), parallel=npar),
+                                      simmp.RandomChooser(rng.randrange(2 ** 31), timeout_weight=0.05), max_steps=20000, hang_window=300)
+                h.count("parallel-visits", f"{npar} workers")
+                if sim1.outcome != "ok":
+                    bad = f"a walk with {npar} workers ended with '{sim1.outcome}' "
+                elif sorted(pv_ops) != sorted(ops):
+                    bad = f"a walk with {npar} workers visited {len(pv_ops)} tiles, count_operations() = {no}: e.g. {sorted(set(pv_ops) ^ ops)[:3]}"
+                elif sim2.outcome != "ok":
+                    bad = f"visit_leaves with {npar} workers ended with '{sim2.outcome}' "
+                elif sorted(pv_leaves) != sorted(leaves):
+                    bad = f"visit_leaves with {npar} workers visited {len(pv_leaves)} tiles, count_leaf_tiles() = {nl}: e.g. {sorted(set(pv_leaves) ^ set(leaves))[:3]}"
+            except Exception as e:  # noqa
+                bad = f"a simulated parallel visit raised {e!r}"
         if bad:
             h.violation(f"counts:{c.line()}", f"pyramid [{c.line()}]: {bad}", input=c.line(), observed=bad)
         # sub-pyramid = restriction of the full result
